@@ -1,2 +1,180 @@
+(* C08 — lemmas.  Everything is over Q (exact rationals); no real-number axioms are used. *)
 From V Require Import Common.NumFacts C08.Model.
-Lemma placeholder : 1 == 1. Proof. reflexivity. Qed.
+From Coq Require Import Permutation Setoid Morphisms.
+Open Scope Q_scope.
+
+(* ---------- vectors up to pointwise Qeq ---------- *)
+Definition veqv : vec -> vec -> Prop := Forall2 Qeq.
+Infix "=v=" := veqv (at level 70).
+
+Lemma veqv_refl a : a =v= a.
+Proof. induction a; constructor; auto; reflexivity. Qed.
+Lemma veqv_sym a b : a =v= b -> b =v= a.
+Proof. induction 1; constructor; auto. symmetry; auto. Qed.
+Lemma veqv_trans a b c : a =v= b -> b =v= c -> a =v= c.
+Proof.
+  intros H; revert c; induction H as [|x y a b Hxy Hab IH]; intros c' H2.
+  - inversion H2; subst; constructor.
+  - inversion H2 as [|y' z b' c'' Hyz Hbc]; subst. constructor.
+    + rewrite Hxy. exact Hyz.
+    + apply IH. exact Hbc.
+Qed.
+Global Instance veqv_equiv : Equivalence veqv.
+Proof. split; [exact veqv_refl | exact veqv_sym | exact veqv_trans]. Qed.
+
+Lemma veqv_length a b : a =v= b -> length a = length b.
+Proof. induction 1; simpl; auto. Qed.
+
+Global Instance qsum_proper : Proper (veqv ==> Qeq) qsum.
+Proof. intros a b H; induction H; simpl; [reflexivity|]. rewrite H, IHForall2. reflexivity. Qed.
+
+Lemma map2_veqv (f : Q -> Q -> Q) :
+  Proper (Qeq ==> Qeq ==> Qeq) f -> Proper (veqv ==> veqv ==> veqv) (map2 f).
+Proof.
+  intros Pf a b H; induction H as [|x y a b Hxy Hab IH]; intros c d H2; simpl.
+  - constructor.
+  - inversion H2 as [|u v c' d' Huv Hcd]; subst; constructor.
+    + apply Pf; auto.
+    + apply IH; auto.
+Qed.
+Global Instance vmul_proper : Proper (veqv ==> veqv ==> veqv) vmul.
+Proof. apply map2_veqv. intros ? ? H ? ? H'. rewrite H, H'. reflexivity. Qed.
+Global Instance vdivq_proper : Proper (veqv ==> veqv ==> veqv) (map2 Qdiv).
+Proof. apply map2_veqv. intros ? ? H ? ? H'. rewrite H, H'. reflexivity. Qed.
+
+Lemma map_veqv (f g : Q -> Q) a b :
+  (forall x y, x == y -> f x == g y) -> a =v= b -> map f a =v= map g b.
+Proof. intros Hf H; induction H; simpl; constructor; auto. Qed.
+Global Instance vdivs_proper : Proper (veqv ==> Qeq ==> veqv) vdivs.
+Proof. intros a b H c d H'. apply map_veqv; auto. intros x y E. rewrite E, H'. reflexivity. Qed.
+
+Lemma veqv_nth a b : a =v= b -> forall i, nthq a i == nthq b i.
+Proof.
+  induction 1; intros i; unfold nthq in *; destruct i; simpl; auto; reflexivity.
+Qed.
+
+(* ---------- sums ---------- *)
+Lemma qsum_vdivs a c : qsum (vdivs a c) == qsum a / c.
+Proof.
+  induction a as [|x a IH]; simpl.
+  - unfold Qdiv. ring.
+  - unfold vdivs in IH. rewrite IH. unfold Qdiv. ring.
+Qed.
+
+Lemma qsum_map_mulr a c : qsum (map (fun x => x * c) a) == qsum a * c.
+Proof. induction a as [|x a IH]; simpl; [ring|]. rewrite IH. ring. Qed.
+
+Lemma qsum_vones n : qsum (vones n) == inject_Z (Z.of_nat n).
+Proof.
+  induction n as [|n IH]; [reflexivity|].
+  unfold vones in *. cbn [repeat qsum fold_right]. fold (qsum (repeat 1 n)). rewrite IH.
+  rewrite Nat2Z.inj_succ. unfold Z.succ. rewrite inject_Z_plus. ring.
+Qed.
+
+Lemma vones_length n : length (vones n) = n.
+Proof. apply repeat_length. Qed.
+
+Lemma qsum_nonneg a : Forall (fun x => 0 <= x) a -> 0 <= qsum a.
+Proof. induction 1; simpl; lra. Qed.
+
+Lemma vmul_vones_r a n : (length a <= n)%nat -> vmul a (vones n) =v= a.
+Proof.
+  revert n; induction a as [|x a IH]; intros n H; simpl.
+  - destruct n; constructor.
+  - destruct n; simpl in H; [lia|]. simpl. constructor; [ring|]. apply IH. lia.
+Qed.
+Lemma vmul_vones_l a n : (length a <= n)%nat -> vmul (vones n) a =v= a.
+Proof.
+  revert n; induction a as [|x a IH]; intros n H; simpl.
+  - destruct n; constructor.
+  - destruct n; simpl in H; [lia|]. simpl. constructor; [ring|]. apply IH. lia.
+Qed.
+Lemma vdivq_vones_r a n : (length a <= n)%nat -> map2 Qdiv a (vones n) =v= a.
+Proof.
+  revert n; induction a as [|x a IH]; intros n H; simpl.
+  - destruct n; constructor.
+  - destruct n; simpl in H; [lia|]. simpl. constructor; [field|]. apply IH. lia.
+Qed.
+
+Lemma vmul_vdivs_l a b c : vmul (vdivs a c) b =v= vdivs (vmul a b) c.
+Proof.
+  revert b; induction a as [|x a IH]; intros [|y b]; simpl; try constructor.
+  - unfold Qdiv; ring.
+  - apply IH.
+Qed.
+
+Lemma map2_length_min {A B C} (f : A -> B -> C) a b :
+  length (map2 f a b) = Nat.min (length a) (length b).
+Proof. revert b; induction a; intros [|y b]; simpl; auto. Qed.
+
+(* ---------- comparisons ---------- *)
+Lemma qltb_true a b : qltb a b = true <-> a < b.
+Proof.
+  unfold qltb. rewrite negb_true_iff. split; intros H.
+  - destruct (Qlt_le_dec a b) as [L|L]; auto. apply Qle_bool_iff in L. congruence.
+  - destruct (Qle_bool b a) eqn:E; auto. apply Qle_bool_iff in E. lra.
+Qed.
+Lemma qltb_false a b : qltb a b = false <-> b <= a.
+Proof.
+  unfold qltb. rewrite negb_false_iff. apply Qle_bool_iff.
+Qed.
+Lemma qleb_true a b : qleb a b = true <-> a <= b.
+Proof. apply Qle_bool_iff. Qed.
+Lemma qleb_false a b : qleb a b = false <-> b < a.
+Proof.
+  unfold qleb. split; intros H.
+  - destruct (Qlt_le_dec b a) as [L|L]; auto. apply Qle_bool_iff in L. congruence.
+  - destruct (Qle_bool a b) eqn:E; auto. apply Qle_bool_iff in E. lra.
+Qed.
+
+Lemma c1em16_pos : 0 < c1em16.
+Proof. reflexivity. Qed.
+
+(* ---------- normalize ---------- *)
+Lemma normalize_length a : length (normalize a) = length a.
+Proof.
+  unfold normalize. destruct (qltb (qsum a) c1em16); unfold vdivs; rewrite map_length; auto.
+  apply vones_length.
+Qed.
+
+Lemma normalize_sum1 a : a <> [] -> qsum (normalize a) == 1.
+Proof.
+  intros NE. unfold normalize. destruct (qltb (qsum a) c1em16) eqn:E.
+  - rewrite qsum_vdivs, qsum_vones.
+    assert (0 < inject_Z (Z.of_nat (length a))) as Hp.
+    { destruct a; [congruence|]. simpl length. rewrite Nat2Z.inj_succ.
+      change 0 with (inject_Z 0). rewrite <- Zlt_Qlt. lia. }
+    field. lra.
+  - apply qltb_false in E. rewrite qsum_vdivs. pose proof c1em16_pos. field. lra.
+Qed.
+
+Lemma Forall_nthq (P : Q -> Prop) a : P 0 -> Forall P a -> forall i, P (nthq a i).
+Proof.
+  intros P0 H; induction H; intros i; unfold nthq in *; destruct i; simpl; auto.
+Qed.
+
+Lemma normalize_nonneg a : Forall (fun x => 0 <= x) a -> Forall (fun x => 0 <= x) (normalize a).
+Proof.
+  intros H. unfold normalize. destruct (qltb (qsum a) c1em16) eqn:E.
+  - unfold vdivs, vones. apply Forall_forall. intros x Hx. apply in_map_iff in Hx.
+    destruct Hx as (y & <- & Hy). apply repeat_spec in Hy. subst y.
+    assert (0 <= inject_Z (Z.of_nat (length a))) as Hp.
+    { change 0 with (inject_Z 0). rewrite <- Zle_Qle. lia. }
+    destruct (Qeq_dec (inject_Z (Z.of_nat (length a))) 0) as [Z|NZ].
+    + rewrite Z. unfold Qdiv, Qinv; simpl. lra.
+    + apply Qle_shift_div_l; lra.
+  - apply qltb_false in E. pose proof c1em16_pos as Hc.
+    unfold vdivs. apply Forall_forall. intros x Hx. apply in_map_iff in Hx.
+    destruct Hx as (y & <- & Hy). rewrite Forall_forall in H. specialize (H _ Hy).
+    apply Qle_shift_div_l; lra.
+Qed.
+
+(* when the raw fractions already sum to one, normalisation only rescales by 1 *)
+Lemma normalize_of_sum1 a : qsum a == 1 -> normalize a =v= a.
+Proof.
+  intros H. unfold normalize.
+  assert (qltb (qsum a) c1em16 = false) as E.
+  { apply qltb_false. rewrite H. unfold c1em16. unfold Qle; simpl; lia. }
+  rewrite E. unfold vdivs. rewrite <- (map_id a) at 2. apply map_veqv; [|reflexivity].
+  intros x y Exy. rewrite H, Exy. field.
+Qed.
